@@ -154,3 +154,17 @@ package table
 //@   ensures  isCat(gCompacterCompactA0, t.prefix, start)
 //@   ensures  !isnil(limit) ==> isCat(gCompacterCompactA1, t.prefix, limit)
 //@   ensures  isnil(limit) ==> isnil(gCompacterCompactA1) || len(gCompacterCompactA1) == len(t.prefix)
+//@
+//@ // snapshots (C24: "... and snapshots"): a table snapshot is a snapshot of the underlying store, taken by the
+//@ // underlying store, seen through the table's prefix -- its reads go to that snapshot (not to the live store), and
+//@ // releasing it releases that snapshot
+//@ func (*Table).GetSnapshot
+//@   requires t != nil && t.underlying != nil
+//@   modifies gSnapshoterGetSnapshotN, gSnapshoterGetSnapshotRecv, gSnapshoterGetSnapshotR0, gSnapshoterGetSnapshotR1
+//@   ensures  gSnapshoterGetSnapshotN == old(gSnapshoterGetSnapshotN) + 1 && gSnapshoterGetSnapshotRecv == t.underlying && result1 == gSnapshoterGetSnapshotR1
+//@   ensures  [failed] result1 != nil ==> result0 == nil
+//@   ensures  [view] result1 == nil ==> typeis(result0, "*snapshot") && fresh(unbox(result0, "*snapshot")) && unbox(result0, "*snapshot").IteratedReader.underlying == gSnapshoterGetSnapshotR0 && unbox(result0, "*snapshot").IteratedReader.prefix == t.prefix && unbox(result0, "*snapshot").snap == gSnapshoterGetSnapshotR0
+//@ func (*snapshot).Release
+//@   requires s != nil && s.snap != nil
+//@   modifies gSnapshotReleaseN, gSnapshotReleaseRecv
+//@   ensures  gSnapshotReleaseN == old(gSnapshotReleaseN) + 1 && gSnapshotReleaseRecv == s.snap
